@@ -134,6 +134,31 @@ PeekResults(it, n) ==
             : kd \in PeekKinds(r, n) }
           : r \in PeekPaths(it.cfg, it.mode, it.inp, it.cur, n) }
 
+\* The same set, as a CHECK of a given result that follows the given token list instead of
+\* enumerating every admissible list: with set-valued Best the number of lists is exponential in
+\* their length (peek_n(usize::MAX) on a long input), the check is linear.  PeekCheck yields the
+\* admissible `sw` values of a path that consists of exactly toks[j..]; the empty set if there is
+\* none.  PeekCheckLemma (IterImpl, leg M-IterImpl-peek of C11) has TLC evaluate that
+\* PeekResultOK accepts exactly the members of PeekResults, on every state of the small worlds.
+RECURSIVE PeekCheck(_, _, _, _, _, _, _)
+PeekCheck(ci, md, k, cur, n, toks, j) ==
+  LET m == ModeOf(ci, md)
+      w == W(k)
+      fb == FirstBest(m, w, cur)
+      i == fb[1]
+  IN  IF j > Len(toks)
+        THEN (IF n = 0 \/ i > Len(w) THEN {-1} ELSE {})     \* the list may end here: n tokens, or the input is exhausted
+      ELSE IF n = 0 \/ i > Len(w) THEN {}                    \* it goes on, but no further token is admissible
+      ELSE UNION { LET t == TokOf(ci, md, k, i, c) IN
+                   IF t # toks[j] THEN {}
+                   ELSE IF HasTrans(m, t[1]) THEN (IF j = Len(toks) THEN {TransTarget(m, t[1])} ELSE {})
+                   ELSE PeekCheck(ci, md, k, c[2], n - 1, toks, j + 1)
+                   : c \in fb[2] }
+PeekResultOK(it, n, res) ==
+  \E sw \in PeekCheck(it.cfg, it.mode, it.inp, it.cur, n, res.toks, 1) :
+    /\ res.kind \in PeekKinds([toks |-> res.toks, sw |-> sw], n)
+    /\ res.target = (IF res.kind = "S" THEN sw ELSE -1)
+
 -----------------------------------------------------------------------------
 Init == scanners = <<>> /\ iters = <<>> /\ cache = {}
 
@@ -171,7 +196,7 @@ DoNextPos(h, tok, sp, ep) ==
 \* peek_n(n): the observable state (cur, mode, hw) does not change (C11)
 DoPeek(h, n, res) ==
   /\ h \in DOMAIN iters
-  /\ res \in PeekResults(iters[h], n)
+  /\ PeekResultOK(iters[h], n, res)          \* i.e. res \in PeekResults(iters[h], n)
   /\ SetIter(h, [iters[h] EXCEPT !.peeked = { res.toks[j][3] : j \in DOMAIN res.toks }])
 
 \* set_mode on an iterator
